@@ -1772,6 +1772,10 @@ func (l *Lowerer) recvFrom(ch *Term, chExpr ast.Expr, elem types.Type, node ast.
 	key := l.chanKey(chExpr)
 	if cs := l.p.chanSpecs[key]; cs != nil && len(cs.OnRecv) > 0 {
 		env := map[string]envEntry{cs.ElemVar: {v, elem}}
+		if sel, ok := ast.Unparen(chExpr).(*ast.SelectorExpr); ok {
+			o, ot := l.tr(sel.X)
+			env["owner"] = envEntry{o, ot}
+		}
 		for _, c := range cs.OnRecv {
 			l.assume(l.clauseTerm(c, env, nil))
 		}
